@@ -35,7 +35,12 @@ RULE_ADDED = (
               'Also: every JSON nesting depth 900..2600 (thorough 1..6000) in three shapes with '
               'logging configured as the shipped logging.cfg; look-alike characters in every string '
               'leaf; hostile compressed-coinbase fields; a device that hands out a fresh well-formed '
-              'signature of any shape per request ')
+              'signature of any shape per request '
+              ' '
+              'Round 8: requests whose string fields (key ids, every hex field, mode and comman'
+              'd names) are long runs of locally valid characters ending in an invalid one, sen'
+              't to the entry-point child process; a request unanswered after 60 s of wall cloc'
+              'k (answers take milliseconds) while the process lives is a violation. ')
 RULE = RULE + " " + RULE_ADDED.strip()
 ASSUMPTIONS = [
     "simulated device keeps to its protocol (firmware-like chunking, well-formed answers)",
